@@ -60,11 +60,20 @@ def chooseBlock (blocks : List (List (Fin n) × List Nat)) : List Nat :=
 
 def addSet (xs : List Nat) (acc : List Nat) : List Nat := xs.foldl (fun a x => if a.contains x then a else a ++ [x]) acc
 
-def blockLevel (c : Ctx n) (szLimit : Option Nat) :
+/-- ids of the nodes that are expanded (the `expanded_before` set taken when the call starts) -/
+def expandedIds (d : Diag n) : List Nat := (List.range d.size).filter d.isExp
+
+/-- `before`: nodes that were expanded before the call and have not been met yet.  Such a node is
+    traversed through *all* its successors (they were not selected by this procedure); a node expanded
+    by the call itself is skipped when it is met again.  A level is a set, so a node occurs at most once
+    in it: the nodes of `before` met on a level are removed after the level (`blockLoop`). -/
+def blockLevel (c : Ctx n) (szLimit : Option Nat) (before : List Nat) :
     List Nat → Diag n → List Nat → Diag n × List Nat × Option Outcome
   | [], d, next => (d, next, none)
   | node :: rest, d, next =>
-    if d.isExp node then blockLevel c szLimit rest d next
+    if d.isExp node then
+      if before.contains node then blockLevel c szLimit before rest d (addSet (d.succs node) next)
+      else blockLevel c szLimit before rest d next
     else if hit szLimit d.size then (d, next, some (.ok false))
     else
       let (d', okk) := expandNode c d node
@@ -72,24 +81,24 @@ def blockLevel (c : Ctx n) (szLimit : Option Nat) :
       else
         let succ := sortNat (d'.succs node)
         match succ with
-        | [] => blockLevel c szLimit rest d' next
-        | [s] => blockLevel c szLimit rest d' (addSet [s] next)
+        | [] => blockLevel c szLimit before rest d' next
+        | [s] => blockLevel c szLimit before rest d' (addSet [s] next)
         | _ =>
           let blocks := groupBlocks (succ.map fun s => (s, blockOfSucc c.N d' node s)) []
-          blockLevel c szLimit rest d' (addSet (chooseBlock blocks) next)
+          blockLevel c szLimit before rest d' (addSet (chooseBlock blocks) next)
 
-def blockLoop (c : Ctx n) (szLimit : Option Nat) : Nat → Diag n → List Nat → Diag n × Outcome
-  | 0, d, _ => (d, .ok true)
-  | fuel+1, d, cur =>
+def blockLoop (c : Ctx n) (szLimit : Option Nat) : Nat → Diag n → List Nat → List Nat → Diag n × Outcome
+  | 0, d, _, _ => (d, .ok true)
+  | fuel+1, d, cur, before =>
     if cur.isEmpty then (d, .ok true) else
-    let (d', next, early) := blockLevel c szLimit (sortNat cur) d []
+    let (d', next, early) := blockLevel c szLimit before (sortNat cur) d []
     match early with
     | some o => (d', o)
-    | none => blockLoop c szLimit fuel d' next
+    | none => blockLoop c szLimit fuel d' next (before.filter fun b => !cur.contains b)
 
 /-- `expand_block(find_motif_avoidant_attractors=False, optimize_source_nodes=False, size_limit)` -/
 def expandBlock (c : Ctx n) (d : Diag n) (szLimit : Option Nat) : Diag n × Outcome :=
-  blockLoop c szLimit (fuelOf n) d [0]
+  blockLoop c szLimit (fuelOf n) d [0] (expandedIds d)
 
 end Balm.Impl
 
@@ -129,11 +138,14 @@ def minimalBlocks (blocks : List (List (Fin n) × List Nat)) : List (List (Fin n
   let minimal := if blocks.length > 1 then blocks.filter fun b => !(blocks.any fun b2 => properSubset b2.1 b.1) else blocks
   minimal.mergeSort (fun x y => x.2.length ≤ y.2.length)
 
-def blockLevelX (c : Ctx n) (cfg : BlockCfg) :
+def blockLevelX (c : Ctx n) (cfg : BlockCfg) (before : List Nat) :
     List Nat → Diag n → List Nat → List Bool → Diag n × List Nat × List Bool × Option Outcome
   | [], d, next, clean => (d, next, clean, none)
   | node :: rest, d, next, clean =>
-    if d.isExp node then blockLevelX c cfg rest d next clean
+    if d.isExp node then
+      -- met for the first time in this call and expanded before it: continue through all successors
+      if before.contains node then blockLevelX c cfg before rest d (addSet (d.succs node) next) clean
+      else blockLevelX c cfg before rest d next clean
     else if hit cfg.szLimit d.size then (d, next, clean, some (.ok false))
     else
       let p := d.space node
@@ -146,25 +158,25 @@ def blockLevelX (c : Ctx n) (cfg : BlockCfg) :
           let (d', ids) := (valuations p srcs).foldl (fun (acc : Diag n × List Nat) m =>
               let r := ensureChild c acc.1 (some node) m
               (r.1, acc.2 ++ [r.2])) (d, [])
-          blockLevelX c cfg rest (setExp d' node) (addSet ids next) clean
+          blockLevelX c cfg before rest (setExp d' node) (addSet ids next) clean
       else
         let (d', okk) := expandNode c d node
         if !okk then (d', next, clean, some .err)
         else
           let succ := sortNat (d'.succs node)
           match succ with
-          | [] => blockLevelX c cfg rest d' next clean
+          | [] => blockLevelX c cfg before rest d' next clean
           | s :: more =>
-            if more.isEmpty && !cfg.checkMaa then blockLevelX c cfg rest d' (addSet [s] next) clean
+            if more.isEmpty && !cfg.checkMaa then blockLevelX c cfg before rest d' (addSet [s] next) clean
             else
               let blocks := minimalBlocks (groupBlocks (succ.map fun s => (s, blockOfSucc c.N d' node s)) [])
               if !cfg.checkMaa then
-                blockLevelX c cfg rest d' (addSet (match blocks with | [] => [] | b :: _ => b.2) next) clean
+                blockLevelX c cfg before rest d' (addSet (match blocks with | [] => [] | b :: _ => b.2) next) clean
               else
                 let (pick, clean') := pickClean blocks clean
                 match pick with
-                | some nodes => blockLevelX c cfg rest d' (addSet nodes next) clean'
-                | none => blockLevelX c cfg rest d' (addSet succ next) clean'
+                | some nodes => blockLevelX c cfg before rest d' (addSet nodes next) clean'
+                | none => blockLevelX c cfg before rest d' (addSet succ next) clean'
 where
   /-- `size_limit is not None and x > size_limit` -/
   hit' (lim : Option Nat) (x : Nat) : Bool :=
@@ -172,16 +184,16 @@ where
     | some L => decide (x > L)
     | none => false
 
-def blockLoopX (c : Ctx n) (cfg : BlockCfg) : Nat → Diag n → List Nat → List Bool → Diag n × Outcome × List Bool
-  | 0, d, _, clean => (d, .ok true, clean)
-  | fuel+1, d, cur, clean =>
+def blockLoopX (c : Ctx n) (cfg : BlockCfg) : Nat → Diag n → List Nat → List Nat → List Bool → Diag n × Outcome × List Bool
+  | 0, d, _, _, clean => (d, .ok true, clean)
+  | fuel+1, d, cur, before, clean =>
     if cur.isEmpty then (d, .ok true, clean) else
-    let (d', next, clean', early) := blockLevelX c cfg (sortNat cur) d [] clean
+    let (d', next, clean', early) := blockLevelX c cfg before (sortNat cur) d [] clean
     match early with
     | some o => (d', o, clean')
-    | none => blockLoopX c cfg fuel d' next clean'
+    | none => blockLoopX c cfg fuel d' next (before.filter fun b => !cur.contains b) clean'
 
 def expandBlockX (c : Ctx n) (d : Diag n) (cfg : BlockCfg) (clean : List Bool) : Diag n × Outcome × List Bool :=
-  blockLoopX c cfg (fuelOf n) d [0] clean
+  blockLoopX c cfg (fuelOf n) d [0] (expandedIds d) clean
 
 end Balm.Impl
